@@ -114,6 +114,24 @@ mod k {
     }
 
     // ---------------------------------------------------------------- configuration builders -------------------
+    // Vectors whose elements carry enum tags, niches or lengths that must stay concrete for CBMC are backed by typed
+    // static arrays instead of malloc'd byte arrays (contents are still whatever the harness pushes).  Such vectors
+    // must never be dropped or grown: every harness forgets its configuration.
+    static mut PREFIX_BUF: [config::Prefix; 16] = [const {
+        config::Prefix { addr: Ipv6Addr::UNSPECIFIED, prefixlen: 0, onlink: false, autonomous: false, valid: Duration::ZERO, preferred: Duration::ZERO }
+    }; 16];
+    static mut DNS_BUF: [IpAddr; 8] = [const { IpAddr::V4(Ipv4Addr::UNSPECIFIED) }; 8];
+    static mut SEARCH_BUF: [String; 4] = [const { String::new() }; 4];
+    fn prefix_vec() -> Vec<config::Prefix> {
+        unsafe { Vec::from_raw_parts(std::ptr::addr_of_mut!(PREFIX_BUF) as *mut config::Prefix, 0, 16) }
+    }
+    fn dns_vec() -> Vec<IpAddr> {
+        unsafe { Vec::from_raw_parts(std::ptr::addr_of_mut!(DNS_BUF) as *mut IpAddr, 0, 8) }
+    }
+    fn search_vec() -> Vec<String> {
+        unsafe { Vec::from_raw_parts(std::ptr::addr_of_mut!(SEARCH_BUF) as *mut String, 0, 4) }
+    }
+
     fn top(dns_servers: Vec<IpAddr>, dns_search: Vec<String>, captive_portal: Option<String>) -> crate::config::Config {
         crate::config::Config {
             #[cfg(feature = "dhcp")]
@@ -355,6 +373,7 @@ mod k {
         let p = any_p();
         let conf = top(Vec::new(), Vec::new(), None);
         let mut intf = quiet();
+        intf.prefixes = prefix_vec();
         intf.prefixes.push(cfg_p(&p));
         let b = emit(&conf, &intf, None, None, Ipv6Addr::UNSPECIFIED, Duration::from_secs(0));
         let n = check_framing(&b);
@@ -382,7 +401,7 @@ mod k {
         kani::assume(p1.valid <= u32::MAX as u64 && p1.pref <= u32::MAX as u64 && p1.addr & !mask6(p1.len) == 0);
         let conf = top(Vec::new(), Vec::new(), None);
         let mut intf = quiet();
-        intf.prefixes = Vec::with_capacity(2);
+        intf.prefixes = prefix_vec();
         intf.prefixes.push(cfg_p(&p0));
         intf.prefixes.push(cfg_p(&p1));
         let b = emit(&conf, &intf, Some(kani::any()), Some(kani::any()), Ipv6Addr::UNSPECIFIED, Duration::from_secs(0));
@@ -791,7 +810,7 @@ mod k {
         p0.pref &= 0xffff_ffff;
         p1.valid &= 0xffff_ffff;
         p1.pref &= 0xffff_ffff;
-        intf.prefixes = Vec::with_capacity(2);
+        intf.prefixes = prefix_vec();
         intf.prefixes.push(cfg_p(&p0));
         intf.prefixes.push(cfg_p(&p1));
         intf.rdnss = ConfigValue::Value(vec![Ipv6Addr::from(kani::any::<u128>()), Ipv6Addr::from(kani::any::<u128>())]);
@@ -818,4 +837,47 @@ mod k {
         std::mem::forget(intf);
         std::mem::forget(conf);
     }
+
+    // TMPEXP-BEGIN
+    /// VERIF: {"p":"C17","tier":"quick","fns":[],"bounds":"tmp","oracle":"tmp","covers":0,"unwind":24}
+    #[kani::proof]
+    #[kani::unwind(24)]
+    #[kani::stub(<crate::radv::icmppkt::NDOptions as std::default::Default>::default, crate::radv::icmppkt::NDOptions::verif_typed)]
+    fn c17_tmp_dnssl_heap() {
+        let conf = top(Vec::new(), Vec::new(), None);
+        let mut intf = quiet();
+        intf.dnssl = ConfigValue::Value(vec![String::from("a.bc"), String::from("de")]);
+        let b = emit(&conf, &intf, None, None, Ipv6Addr::UNSPECIFIED, Duration::from_secs(0));
+        let n = check_framing(&b);
+        assert!(n == 1 && count_opt(&b, 31) == 1, "exactly one DNSSL option");
+        if let Some(o) = find_opt(&b, 31, 0) {
+            check_dnssl(&b, o, &[1, b'a', 2, b'b', b'c', 0, 2, b'd', b'e', 0], 1800);
+        }
+        std::mem::forget(b);
+        std::mem::forget(intf);
+        std::mem::forget(conf);
+    }
+
+    /// VERIF: {"p":"C17","tier":"quick","fns":[],"bounds":"tmp","oracle":"tmp","covers":0,"unwind":24}
+    #[kani::proof]
+    #[kani::unwind(24)]
+    #[kani::stub(<crate::radv::icmppkt::NDOptions as std::default::Default>::default, crate::radv::icmppkt::NDOptions::verif_typed)]
+    fn c17_tmp_dnssl_typed() {
+        let conf = top(Vec::new(), Vec::new(), None);
+        let mut intf = quiet();
+        let mut v = search_vec();
+        v.push(String::from("a.bc"));
+        v.push(String::from("de"));
+        intf.dnssl = ConfigValue::Value(v);
+        let b = emit(&conf, &intf, None, None, Ipv6Addr::UNSPECIFIED, Duration::from_secs(0));
+        let n = check_framing(&b);
+        assert!(n == 1 && count_opt(&b, 31) == 1, "exactly one DNSSL option");
+        if let Some(o) = find_opt(&b, 31, 0) {
+            check_dnssl(&b, o, &[1, b'a', 2, b'b', b'c', 0, 2, b'd', b'e', 0], 1800);
+        }
+        std::mem::forget(b);
+        std::mem::forget(intf);
+        std::mem::forget(conf);
+    }
+    // TMPEXP-END
 }
